@@ -54,14 +54,27 @@ Fixpoint cut_nul (s : bytes) : bytes :=
   | c :: r => if c =? 0 then [] else c :: cut_nul r
   end.
 
-Definition get_chars (n : Z) (bs : bytes) : option (bytes * bytes) :=
-  if (n <? 0) || (Z.of_nat (length bs) <? n) then None
-  else Some (cut_nul (firstn (Z.to_nat n) bs), skipn (Z.to_nat n) bs).
+(* bufGetn(buf, n): n bytes, None when fewer are left (assert in C).
+   Structural on the byte list so that neither a huge count nor the length of
+   the remaining input is ever computed. *)
+Fixpoint take (bs : bytes) (n : Z) : option (bytes * bytes) :=
+  if n <=? 0 then Some ([], bs)
+  else match bs with
+       | [] => None
+       | b :: r => match take r (n - 1) with
+                   | Some (a, r') => Some (b :: a, r')
+                   | None => None
+                   end
+       end.
 
-(* raw block of n bytes (bufGetn) *)
 Definition get_block (n : Z) (bs : bytes) : option (bytes * bytes) :=
-  if (n <? 0) || (Z.of_nat (length bs) <? n) then None
-  else Some (firstn (Z.to_nat n) bs, skipn (Z.to_nat n) bs).
+  if n <? 0 then None else take bs n.
+
+Definition get_chars (n : Z) (bs : bytes) : option (bytes * bytes) :=
+  match get_block n bs with
+  | Some (s, r) => Some (cut_nul s, r)
+  | None => None
+  end.
 
 (* a C string: bytes 1..255, no NUL *)
 Definition is_cstring (s : bytes) : Prop := Forall (fun b => 1 <= b < 256) s.
@@ -86,17 +99,17 @@ Fixpoint undigits16 (ds : list Z) : Z :=
 Fixpoint put_hints (ds : list Z) : bytes :=
   match ds with [] => [] | d :: r => put_hint d ++ put_hints r end.
 
-Fixpoint get_hints (n : nat) (bs : bytes) : option (list Z * bytes) :=
-  match n with
-  | O => Some ([], bs)
-  | S m => match get_hint bs with
-           | None => None
-           | Some (d, r) => match get_hints m r with
-                            | None => None
-                            | Some (ds, r') => Some (d :: ds, r')
-                            end
-           end
-  end.
+(* n half-ints; structural on the input (no count-sized or length-sized work) *)
+Fixpoint get_hints (bs : bytes) (n : Z) : option (list Z * bytes) :=
+  if n <=? 0 then Some ([], bs)
+  else match bs with
+       | b0 :: b1 :: r =>
+         match get_hints r (n - 1) with
+         | Some (ds, r') => Some ((b0 + 256 * b1) :: ds, r')
+         | None => None
+         end
+       | _ => None
+       end.
 
 (* ------------------------------------------------------------------ lemmas *)
 
@@ -178,38 +191,46 @@ Proof.
   - rewrite andb_true_iff, Z.leb_le, Z.ltb_lt. lia.
 Qed.
 
-Lemma get_chars_app s r :
-  is_cstring s -> get_chars (Z.of_nat (length s)) (s ++ r) = Some (s, r).
+Lemma take_app s r : take (s ++ r) (Z.of_nat (length s)) = Some (s, r).
 Proof.
-  intros Hs. unfold get_chars.
-  rewrite app_length, Nat2Z.inj_add.
-  destruct (Z.ltb_spec (Z.of_nat (length s)) 0); [lia|].
-  destruct (Z.ltb_spec (Z.of_nat (length s) + Z.of_nat (length r)) (Z.of_nat (length s))); [lia|].
-  cbn [orb]. rewrite Nat2Z.id.
-  rewrite firstn_app, Nat.sub_diag, firstn_all, firstn_O, app_nil_r.
-  rewrite skipn_app, Nat.sub_diag, skipn_all, skipn_O.
-  cbn [app]. now rewrite cut_nul_cstring.
+  induction s as [|c s IH].
+  - cbn. destruct r; reflexivity.
+  - cbn [length app take]. destruct (Z.leb_spec (Z.of_nat (S (length s))) 0); [lia|].
+    replace (Z.of_nat (S (length s)) - 1) with (Z.of_nat (length s)) by lia.
+    now rewrite IH.
 Qed.
 
 Lemma get_block_app s r :
   get_block (Z.of_nat (length s)) (s ++ r) = Some (s, r).
 Proof.
-  unfold get_block.
-  rewrite app_length, Nat2Z.inj_add.
-  destruct (Z.ltb_spec (Z.of_nat (length s)) 0); [lia|].
-  destruct (Z.ltb_spec (Z.of_nat (length s) + Z.of_nat (length r)) (Z.of_nat (length s))); [lia|].
-  cbn [orb]. rewrite Nat2Z.id.
-  rewrite firstn_app, Nat.sub_diag, firstn_all, firstn_O, app_nil_r.
-  rewrite skipn_app, Nat.sub_diag, skipn_all, skipn_O. reflexivity.
+  unfold get_block. destruct (Z.ltb_spec (Z.of_nat (length s)) 0); [lia|]. apply take_app.
+Qed.
+
+Lemma get_chars_app s r :
+  is_cstring s -> get_chars (Z.of_nat (length s)) (s ++ r) = Some (s, r).
+Proof.
+  intros Hs. unfold get_chars. rewrite get_block_app. now rewrite cut_nul_cstring.
+Qed.
+
+Lemma take_length bs n a r : take bs n = Some (a, r) -> (length r <= length bs)%nat.
+Proof.
+  revert n a r; induction bs as [|b bs IH]; intros n a r; cbn [take].
+  - destruct (n <=? 0); [intros [= <- <-]; lia | discriminate].
+  - destruct (n <=? 0); [intros [= <- <-]; lia |].
+    destruct (take bs (n - 1)) as [[a' r']|] eqn:E; [|discriminate].
+    intros [= <- <-]. apply IH in E. cbn. lia.
 Qed.
 
 Lemma get_put_hints ds r :
   Forall (fun d => 0 <= d < 65536) ds ->
-  get_hints (length ds) (put_hints ds ++ r) = Some (ds, r).
+  get_hints (put_hints ds ++ r) (Z.of_nat (length ds)) = Some (ds, r).
 Proof.
-  induction 1 as [|d ds Hd _ IH]; [reflexivity|].
-  cbn [length put_hints get_hints]. rewrite <- app_assoc, get_put_hint.
-  rewrite IH. now rewrite Z.mod_small by lia.
+  induction 1 as [|d ds Hd _ IH].
+  - cbn. destruct r as [|? [|? ?]]; reflexivity.
+  - cbn [length put_hints put_hint app get_hints].
+    destruct (Z.leb_spec (Z.of_nat (S (length ds))) 0); [lia|].
+    replace (Z.of_nat (S (length ds)) - 1) with (Z.of_nat (length ds)) by lia.
+    rewrite IH. rewrite hint_recompose. now rewrite Z.mod_small by lia.
 Qed.
 
 Lemma digits16_range f z : Forall (fun d => 0 <= d < 65536) (digits16 f z).
